@@ -13,7 +13,7 @@ go=0
 for p in C01 C02 C03 C05 C06 C07 C08 C09 C10 C11 C13 C14 C15 C16 C17 C18 C12 C04; do
   [ "$p" = "$start" ] && go=1
   [ $go = 1 ] || continue
-  for r in 1 2 3 4; do for v in A B; do
+  for r in ${ROUNDS:-1 2 3 4 5}; do for v in A B; do
     case $r in 1) f=/tmp/seeded/out-$p/$v/patch.diff; key="$p/$v";; *) f=/tmp/seeded/out$r-$p/$v/patch.diff; key="$p/r$r$v";; esac
     [ -f "$f" ] || continue
     echo "### $key" >> "$OUT"
